@@ -364,6 +364,66 @@ def capture_intact_leg(c, wd):
     sys.modules.pop(mod.__name__, None)
 
 
+CLOCK_HOST = '''
+CLOCK = None
+
+
+class Stepper:
+    """A value whose text is produced while the wall clock is set back (NTP, a resumed VM)."""
+
+    def __str__(self):
+        CLOCK(-6)
+        return 'stepper'
+
+
+def inner(n):
+    st = Stepper()
+    last = n + 1
+    return last  # TP:inner
+
+
+def outer(n):
+    kept = [n, n]
+    return inner(n) + len(kept)
+'''
+
+
+def clock_back_leg(c, wd):
+    """The collection time limit is about time SPENT: when the wall clock is set back while a snapshot is collected
+    (next to no time was spent), every frame still carries its variables. And forward: the limit applies."""
+    mod, path, marks = R.write_host(wd, CLOCK_HOST)
+    base = path.rsplit('/', 1)[-1]
+    for label, step, want_outer in (('set back 3 s', -6, True), ('not moved', 0, True), ('moved on 3 s', 6, False)):
+        rg = R.Rig()
+        try:
+            rg.clock.set(100)
+            mod.CLOCK = lambda _ignored, step=step: rg.clock.set(rg.clock.tick + step)
+            rg.install([{'id': 'tp-clock', 'path': base, 'line': marks['inner'], 'args': {'frame_type': 'all_frame'},
+                         'watches': []}])
+            res = rg.run(mod.outer, 5, only_file=path)
+            snaps = rg.snapshots()
+            bad = None
+            if res != ('ok', 8) or rg.escaped or len(snaps) != 1:
+                bad = 'no snapshot / host changed: %r %r' % (res, rg.escaped)
+            else:
+                frames = {f.method_name: sorted(v.name for v in f.variables) for f in snaps[0].frames[:2]}
+                if frames.get('inner') != ['last', 'n', 'st']:
+                    bad = 'variables of the paused frame: %s' % frames.get('inner')
+                elif want_outer and frames.get('outer') != ['kept', 'n']:
+                    bad = 'variables of the calling frame: %s (no time was spent: the clock was %s)' % (frames.get('outer'), label)
+                elif not want_outer and frames.get('outer'):
+                    bad = 'the calling frame carries %s although the time limit was used up' % frames.get('outer')
+            c.traces_validated += 1
+            c.note_case(key=('clock', label), nontrivial=True)
+            if bad:
+                p_ = c.save_replay({'direction': 'C2S', 'kind': 'clock-during-collection', 'clock': label, 'what': bad})
+                c.violation('wall clock %s while the snapshot was collected: %s' % (label, bad), p_)
+        finally:
+            mod.CLOCK = None
+            rg.close()
+    sys.modules.pop(mod.__name__, None)
+
+
 def run(c):
     quick = c.tier == 'quick'
     rng = random.Random(c.seed)
@@ -389,6 +449,11 @@ def run(c):
     c05.validate(c, traces, meta)
     logged_snapshots_leg(c, wd)
     capture_intact_leg(c, wd)
+    clock_back_leg(c, wd)
+    # results of watches are values of their own: a released temporary's identity must not be taken for a later one's
+    # (shared with C07)
+    from . import c07
+    c07.temporaries_leg(c, wd)
     sim = tlc.simulate('Snapshot', c02.mc_cfg(d=2, k=3, cls=c02.ALL_CLS), num=40 if quick else 5000, depth=12, seed=c.seed + 7)
     c.transitions += sim.generated
     multi = [b for b in sim.behaviours if len(b[-1][2]['tps']) >= 2]
